@@ -199,7 +199,7 @@ def vpar_advect_ref(F, speed, dt, eta, c, edge):
 # ---------------------------------------------------------------------------
 # quasi-neutrality (C15): dense Galerkin solve per mode (DESIGN.md Appendix A)
 # ---------------------------------------------------------------------------
-def qn_ref(R, eta, c, chi, adiabatic=True, degree=7, Bfield=1.0):
+def qn_ref(R, eta, c, chi, adiabatic=True, degree=7, Bfield=1.0, Te_fn=None):
     """R: real or complex density (r, theta, z) -> potential (r, theta, z), complex."""
     r, q = eta[0], eta[1]
     p = int(c['splineDegrees'][0])
@@ -216,7 +216,7 @@ def qn_ref(R, eta, c, chi, adiabatic=True, degree=7, Bfield=1.0):
     dB = np.stack([BSpline(T, np.eye(nb)[j], p).derivative()(pts) for j in range(nb)], axis=1)
     B0 = float(Bfield)                            # the driver uses the default B = 1
     Bc = -(1 / pts + n0deriv_normalised(pts, c))
-    Cc = B0 * B0 / Te(pts, c)
+    Cc = B0 * B0 / (Te(pts, c) if Te_fn is None else Te_fn(pts))
     Dc = -1 / pts ** 2
     Ec = B0 * B0 / n0(pts, c)
 
